@@ -53,6 +53,7 @@ type PropSpec struct {
 	Assumptions []string
 	Outside     []string // what lies outside the bounds
 	NeedsGen    bool     // needs the natively generated tile-matrix-set data
+	Exhaustive  bool     // the obligations cover their whole (finite) input domain without any bound
 	Regression  []string // replay files (relative to /verif) of repaired defects: must pass natively on every run
 	Native      func(c *checkCtx) []NativeResult
 }
@@ -508,9 +509,16 @@ func cmdCheck(args []string) int {
 		}
 		// panics / budget / deadlock
 		if !r.Obl.AllowPanic {
-			for i, pi := range res.Panics {
-				if i >= 3 {
-					break
+			// a deadlock found under the interpreter's canonical schedule depends natively on the Go scheduler's choices
+			// (e.g. which goroutine starts first): every stored witness (up to 20) is tried until one reproduces
+			confirmedDeadlock, unconfirmed := false, 0
+			for _, pi := range res.Panics {
+				if pi.Status == "deadlock" {
+					if confirmedDeadlock {
+						continue
+					}
+				} else if unconfirmed >= 3 {
+					continue
 				}
 				aid := r.Obl.Harness + "." + pi.Status
 				totalObl++
@@ -518,6 +526,11 @@ func cmdCheck(args []string) int {
 				status, out := c.runReplay(r.Obl.Pkg, r.Obl.Harness, rp)
 				replays++
 				if status == "panic" || status == "timeout" {
+					if pi.Status == "deadlock" {
+						confirmedDeadlock = true
+					} else {
+						unconfirmed++ // bounds the number of reported panic witnesses as before
+					}
 					if kf := matchKnown(known, id, aid); kf != nil {
 						lines = append(lines, fmt.Sprintf("KNOWN-FINDING: property=%s %s (replay=%s)", id, kf.What, rp))
 					} else {
@@ -526,6 +539,9 @@ func cmdCheck(args []string) int {
 						fmt.Fprintf(os.Stderr, "   path ended in %s: %s; witness %v\n", pi.Status, pi.Detail, pi.Inputs)
 					}
 				} else {
+					if pi.Status != "deadlock" {
+						unconfirmed++
+					}
 					inconclusive++
 					notes = append(notes, fmt.Sprintf("%s on a path of %s (%s) did not reproduce natively (status %s)", pi.Status, r.Obl.Harness, pi.Detail, status))
 					fmt.Fprintf(os.Stderr, "   WARNING: %s in %s did not reproduce natively (%s): %s\n%s\n", pi.Status, r.Obl.Harness, status, pi.Detail, out)
